@@ -835,19 +835,28 @@ func (fr *Frame) appendOp(cx *callCtx) Term {
 	res := vc.fresh("append", "Slice")
 	vc.assumeIf(st.pc, fmt.Sprintf("(= %s (ite %s (mkslice (s_arr %s) (s_off %s) %s (s_cap %s)) (mkslice %s 0 %s %s)))", res, inPlace, s, s, newLen, s, fresh, newLen, newCap))
 	if isStructLike(et) {
-		// element fields: copy semantics per field component
-		stt, ok := et.Underlying().(*types.Struct)
-		if !ok {
+		// element fields: copy semantics per leaf field component (nested structs are walked)
+		if _, ok := et.Underlying().(*types.Struct); !ok {
 			return res
 		}
-		for i := 0; i < stt.NumFields(); i++ {
-			if isStructLike(stt.Field(i).Type()) {
-				vc.warn = append(vc.warn, "append of nested struct elements: nested fields havocked")
-				continue
+		var walk func(t types.Type, path []int)
+		walk = func(t types.Type, path []int) {
+			stt, ok := t.Underlying().(*types.Struct)
+			if !ok {
+				vc.warn = append(vc.warn, "append of array-valued struct elements: cells havocked")
+				return
 			}
-			c, boxed := e.fieldComp(et, i)
-			fr.appendCells(st, c, boxed, i, s, xs, res, n)
+			for i := 0; i < stt.NumFields(); i++ {
+				ft := stt.Field(i).Type()
+				if isStructLike(ft) {
+					walk(ft, append(append([]int{}, path...), i))
+					continue
+				}
+				c, boxed := e.fieldComp(t, i)
+				fr.appendCellsPath(st, c, boxed, path, i, s, xs, res, n)
+			}
 		}
+		walk(et, nil)
 		return res
 	}
 	c := e.boxComp(et)
@@ -859,16 +868,27 @@ func (fr *Frame) appendOp(cx *callCtx) Term {
 // at [0,len s) equal the old cells of s, cells at [len s, len s+n) equal those of xs, all
 // other cells are unchanged.
 func (fr *Frame) appendCells(st *State, c string, boxed bool, fieldIdx int, s, xs, res, n Term) {
+	fr.appendCellsPath(st, c, boxed, nil, fieldIdx, s, xs, res, n)
+}
+
+// appendCellsPath: as appendCells for a leaf field reached from the element through the nested struct
+// fields `path`; the leaf's cell is the (nested) struct location, or its fld when the field is boxed.
+func (fr *Frame) appendCellsPath(st *State, c string, boxed bool, path []int, fieldIdx int, s, xs, res, n Term) {
 	e := fr.eng
 	vc := e.vc
 	old := e.get(st, c)
 	nw := vc.fresh("h", e.compSort[c])
-	cell := func(sl, i Term) Term {
-		l := fmt.Sprintf("(sidx %s %s)", sl, i)
+	wrap := func(l Term) Term {
+		for _, p := range path {
+			l = fmt.Sprintf("(fld %s %d)", l, p)
+		}
 		if boxed && fieldIdx >= 0 {
-			return fmt.Sprintf("(fld %s %d)", l, fieldIdx)
+			l = fmt.Sprintf("(fld %s %d)", l, fieldIdx)
 		}
 		return l
+	}
+	cell := func(sl, i Term) Term {
+		return wrap(fmt.Sprintf("(sidx %s %s)", sl, i))
 	}
 	// forall j in [0, len res): new[res[j]] = j < len s ? old[s[j]] : old[xs[j-len s]]
 	vc.assumeIf(st.pc, fmt.Sprintf("(forall ((j Int)) (! (=> (and (<= 0 j) (< j (s_len %s))) (= (select %s %s) (ite (< j (s_len %s)) (select %s %s) (select %s %s)))) :pattern (%s)))",
@@ -884,10 +904,21 @@ func (fr *Frame) appendCells(st *State, c string, boxed bool, fieldIdx int, s, x
 	}
 	// frame: everything that is not one of the appended cells keeps its value
 	var inRes Term
-	if boxed && fieldIdx >= 0 {
-		inRes = fmt.Sprintf("(and (is_fld l) (= (fld_i l) %d) (is_idx (fld_base l)) (= (idx_base (fld_base l)) (s_arr %s)) (<= (+ (s_off %s) (s_len %s)) (idx_i (fld_base l))) (< (idx_i (fld_base l)) (+ (s_off %s) (s_len %s))))", fieldIdx, res, res, s, res, res)
-	} else {
-		inRes = fmt.Sprintf("(and (is_idx l) (= (idx_base l) (s_arr %s)) (<= (+ (s_off %s) (s_len %s)) (idx_i l)) (< (idx_i l) (+ (s_off %s) (s_len %s))))", res, res, s, res, res)
+	{
+		// peel the fld wrappers (innermost field last) off l to reach the element location
+		base := "l"
+		var conds []Term
+		steps := append([]int{}, path...)
+		if boxed && fieldIdx >= 0 {
+			steps = append(steps, fieldIdx)
+		}
+		for k := len(steps) - 1; k >= 0; k-- {
+			conds = append(conds, fmt.Sprintf("(is_fld %s)", base), fmt.Sprintf("(= (fld_i %s) %d)", base, steps[k]))
+			base = fmt.Sprintf("(fld_base %s)", base)
+		}
+		conds = append(conds, fmt.Sprintf("(is_idx %s)", base), fmt.Sprintf("(= (idx_base %s) (s_arr %s))", base, res),
+			fmt.Sprintf("(<= (+ (s_off %s) (s_len %s)) (idx_i %s))", res, s, base), fmt.Sprintf("(< (idx_i %s) (+ (s_off %s) (s_len %s)))", base, res, res))
+		inRes = and(conds...)
 	}
 	inFresh := fmt.Sprintf("(= (rootid l) (rootid (s_arr %s)))", res)
 	_ = inFresh
